@@ -29,6 +29,10 @@ CHECKS = {
                 technique="exhaustive enumeration of expression trees x integer bindings against exact Fraction arithmetic; exhaustive enumeration of token strings of the documented grammar against Python's arithmetic grammar",
                 text="Every expression tree up to depth 2 (plus rounding operators on top of every depth-2 rational expression; depth 3 over a reduced operator set in thorough) built through the real operator overloads, with int or symbolic operands on either side, is evaluated under every binding of a small positive domain, completely and partially in both orders, directly, after simplify(), after re-parsing its printed form and after a dim_param serde round trip, and compared with exact fractions.Fraction arithmetic. Every token string up to 6 (7) tokens that the documented grammar derives is parsed and compared with the standard arithmetic meaning (Python's grammar evaluated over Fractions).",
                 note="Trusts fractions/math and the Python parser as references. Positive integer bindings only; powers compared for small exponents."),
+    "C04": dict(level="exploration", engine="E6-enum", design="4/C04",
+                technique="exhaustive enumeration of dtype x shape x bit-pattern fill x representation x destination against an independent packed little-endian reference and the ONNX codec",
+                text="All 25 element types (+STRING) x 9 shapes (scalar, empty, odd counts, high rank, zero-sized dim) x bit-pattern fills (every pattern of every <=8-bit type at every position parity, every 16-bit pattern, boundary/non-finite sets for wider types) are pushed through every representation (array-backed incl. non-contiguous/strided/raw-carrier/array-protocol-only/dlpack-only, packed, proto-backed via raw_data and via the typed field, external at 5 offset/tail/length combinations, lazy, ir.tensor, serde round trip, torch adapter incl. views into larger storage) and 6 tofile destinations; dtype/shape/size/nbytes, element bit patterns from numpy(), tobytes() and every tofile() landing are compared with an independent reference encoding, cross-validated by onnx.numpy_helper.",
+                note="Little-endian host; ml_dtypes containers are trusted as bit containers; NaN-payload fills are skipped for float_data/double_data."),
 }
 
 NOT_YET = {}
@@ -70,7 +74,7 @@ def main():
              "kind_free_text": "explicit-state BFS over the real transition function; states are histories replayed on fresh real objects; dedup on canonical public snapshot"},
             {"name": "E1-seq", "path": "mc/props/c11.py", "serves_properties": ["C11"],
              "kind_free_text": "stateless enumeration of all event sequences up to a depth with trace monitors"},
-            {"name": "E6-enum", "path": "mc/props/", "serves_properties": ["C12", "C16"],
+            {"name": "E6-enum", "path": "mc/props/", "serves_properties": ["C04", "C12", "C16"],
              "kind_free_text": "small-scope exhaustive input/structure enumeration with independent reference oracles"},
             {"name": "E4-sched", "path": "mc/sched.py", "serves_properties": ["C09"],
              "kind_free_text": "cooperative baton scheduler for real threads + stateless DFS with delay/preemption bounding"},
